@@ -116,7 +116,9 @@ Definition rejected_obs (ds : string) (e : exn) : bool := match resolve ds with 
     def gen(self, rng, tier):
         cases = []
         for fam, name in doc_names():
-            for spelling in (name, name.replace("-", "_")):
+            first = name.replace("-", "_")
+            swapped = first.replace("_", "-", 1)          # a hyphen directly after the family word
+            for spelling in dict.fromkeys((name, first, name.replace("_", "-"), swapped)):
                 for unpack in (False, True):
                     cases.append({"name": spelling, "doc": name, "family": fam, "unpack": unpack, "env": True})
         # data home resolution without the environment variable, and unknown names
